@@ -323,8 +323,10 @@ static int sweep_c11(int argc, char **argv) {
     memset(buf, 0x80, backing);
     unsigned long long cases = 0, nontriv = 0;
     const uint16_t GEN = 0x0102, XID = 0x0a0b;
-    static const char *vname[] = {"empty", "same-seq", "different-seq", "other-generation", "other-mapper"};
-    for (int variant = 0; variant < 5; variant++) {
+    static const char *vname[] = {"empty", "same-seq", "different-seq", "other-generation", "other-mapper",
+                                  "hole-then-same-seq", "hole-then-different-seq", "full-table-mapper-last-different-seq",
+                                  "full-table-without-mapper"};
+    for (int variant = 0; variant < 9; variant++) {
         session_table *tab = session_table_create();
         if (!tab) { viol("C11:setup", "session_table_create failed"); return 0; }
         switch (variant) {
@@ -332,9 +334,20 @@ static int sweep_c11(int argc, char **argv) {
             case 2: session_table_add(tab, MX, GEN, (uint16_t)(XID + 1)); break;
             case 3: session_table_add(tab, MX, (uint16_t)(GEN + 1), (uint16_t)(XID + 1)); break;
             case 4: session_table_add(tab, MY, GEN, (uint16_t)(XID + 1)); break;
+            case 5: case 6:      /* a removed session leaves a hole in front of the mapper's entry */
+                session_table_add(tab, MY, GEN, 1); session_table_add(tab, MZ, GEN, 1);
+                session_table_add(tab, MX, GEN, (uint16_t)(variant == 5 ? XID : XID + 1));
+                session_table_remove(tab, MY, GEN);
+                break;
+            case 7: case 8:
+                for (int k = 0; k < 15; k++) { uint8_t o[6] = {2, 0x77, 0, 0, 0, (uint8_t)k}; session_table_add(tab, o, (uint16_t)(GEN + (k & 1)), 9); }
+                if (variant == 7) session_table_add(tab, MX, GEN, (uint16_t)(XID + 1));
+                else { uint8_t o[6] = {2, 0x77, 0, 0, 1, 0}; session_table_add(tab, o, GEN, 9); }
+                break;
         }
-        int changed = (variant == 2);
+        int changed = (variant == 2 || variant == 6 || variant == 7);
         for (int n = 1; n <= nmax; n++) {
+            if (variant >= 5 && !(n <= 3 || n == 7 || n == 100 || n == nmax)) continue;
             for (int p = -1; p < n; p++) {
                 vp_fill_stream(buf, mtu, fseed + 13);
                 size_t o = mk_base(buf, BCAST, MX, 0, 0, BCAST, MX, XID);
@@ -602,6 +615,10 @@ static int sweep_c15(int argc, char **argv) {
                 }
                 int timed_out = t > 0 && el[k] > t;
                 int ok = timed_out ? (got == N || got == expn) : (got == exp);
+                if (a->last_ts != base + (uint64_t)el[k])
+                    viol("C15:last-ts-not-updated", "state=%s event=%d elapsed=%lds: last_ts=%llu, now=%llu (the inactivity "
+                         "timeout is measured from the last input)", sn[s], ev, el[k], (unsigned long long)a->last_ts,
+                         (unsigned long long)(base + (uint64_t)el[k]));
                 if (!ok) {
                     char key[128];
                     snprintf(key, sizeof(key), "C15:step:%s:event=%d:%s", sn[s], ev,
@@ -619,6 +636,123 @@ static int sweep_c15(int argc, char **argv) {
     return 0;
 }
 
+/* ===================================================================== two-step histories (C14, C15) */
+
+/* statement tables, as functions */
+static int c15_tab(int T, int N, int P, int C, int s, int ev) {
+    if (s == N) { if (ev == 2) return P; if (ev == 3) return C; if (ev == 0) return T; }
+    if (s == P) { if (ev == 3 || ev == 5) return C; if (ev == 1) return N; }
+    if (s == C) { if (ev == 4) return P; if (ev == 1) return N; }
+    if (s == T) { if (ev == 1 || ev == 7 || ev == 6) return N; }
+    return s;
+}
+
+static int sweep_c15h(int argc, char **argv) {
+    (void)argc; (void)argv;
+    automata *a = init_automata_session();
+    if (!a) { printf("INCONCLUSIVE constructor returned NULL\n"); return 0; }
+    int T = find_state(a, "Temporary"), N = find_state(a, "Nascent"), P = find_state(a, "Pending"), C = find_state(a, "Complete");
+    if (T < 0 || N < 0 || P < 0 || C < 0) { printf("INCONCLUSIVE state names not found\n"); return 0; }
+    unsigned long long cases = 0, nontriv = 0;
+    for (int s0 = 0; s0 < 4; s0++) {
+        long t0 = a->states_table[s0].timeout;
+        long g[5] = {0, t0 - 1, t0, t0 + 1, 10 * t0};
+        for (int e1 = 0; e1 <= 7; e1++) for (int k1 = 0; k1 < 5; k1++) {
+            if (g[k1] < 0) continue;
+            for (int e2 = 0; e2 <= 7; e2++) for (int k2 = 0; k2 < 5; k2++) {
+                uint64_t base = 70000;
+                a->current_state = (uint8_t)s0; a->last_ts = base;
+                vp_now_ms = (base + (uint64_t)g[k1]) * 1000 + 7;
+                switch_state_session(a, e1, "h1");
+                int s1 = a->current_state;
+                /* step 1 is judged by the single-step sweep; here the state it produced is taken as given */
+                long t1 = a->states_table[s1].timeout;
+                long g2v[5] = {0, t1 - 1, t1, t1 + 1, 10 * t1};
+                if (g2v[k2] < 0) continue;
+                vp_now_ms = (base + (uint64_t)g[k1] + (uint64_t)g2v[k2]) * 1000 + 7;
+                switch_state_session(a, e2, "h2");
+                int s2 = a->current_state;
+                cases++;
+                /* the timeout of step 2 runs from the *input* of step 1, whatever step 1 did */
+                int timed_out = t1 > 0 && g2v[k2] > t1;
+                int ok = timed_out ? (s2 == N || s2 == c15_tab(T, N, P, C, N, e2)) : (s2 == c15_tab(T, N, P, C, s1, e2));
+                if (!ok) {
+                    char key[128];
+                    snprintf(key, sizeof(key), "C15:history:%s", timed_out ? "timeout-not-honoured" : "wrong-transition-after-earlier-input");
+                    viol(key, "start state %d, event %d after %lds, then event %d after another %lds (timeout %lds): state %d -> %d -> %d",
+                         s0, e1, g[k1], e2, g2v[k2], t1, s0, s1, s2);
+                } else if (s2 != s1) nontriv++;
+            }
+        }
+    }
+    stat_ull("cases", cases);
+    stat_ull("distinct_nontrivial", nontriv);
+    stat_ull("violations", n_viol);
+    printf("SAMPLE session two-step histories: 4 states x (event, gap) x (event, gap), gaps in {0,t-1,t,t+1,10t}\n");
+    return 0;
+}
+
+static int c14_tab(int Q, int C, int E, int done, int s, int in) {
+    if (s == Q && in == 0) return C;
+    if (s == C && in == 2) return E;
+    if (s == E && in == done) return C;
+    if ((s == C || s == E) && (in == 8 || in == -1)) return Q;
+    return s;
+}
+
+static int sweep_c14h(int argc, char **argv) {
+    (void)argc; (void)argv;
+    automata *a = init_automata_mapping();
+    if (!a) { printf("INCONCLUSIVE constructor returned NULL\n"); return 0; }
+    int Q = find_state(a, "Quiescent"), C = find_state(a, "Command"), E = find_state(a, "Emit");
+    if (Q < 0 || C < 0 || E < 0) { printf("INCONCLUSIVE state names not found\n"); return 0; }
+    int done = 0, ndone = 0;
+    for (int i = 0; i < a->transitions_no; i++) {
+        transition *t = &a->transitions_table[i];
+        if (t->from == E && t->to == C && t->with < 0 && t->with != -1) { if (!ndone || t->with != done) ndone++; done = t->with; }
+    }
+    if (ndone != 1) { printf("INCONCLUSIVE emission-complete input not unique\n"); return 0; }
+    static const int second[] = {-128, -3, -2, -1, 0, 1, 2, 3, 4, 5, 6, 7, 8, 9, 10, 11, 12, 13, 127, 255};
+    unsigned long long cases = 0, nontriv = 0;
+    for (int s0 = 0; s0 < 3; s0++) {
+        long t0 = a->states_table[s0].timeout;
+        long g[5] = {0, t0 - 1, t0, t0 + 1, 10 * t0};
+        if (s0 == Q) { g[1] = 1; g[2] = 5; g[3] = 31; g[4] = 300; }
+        for (int in1 = -128; in1 <= 255; in1++) for (int k1 = 0; k1 < 5; k1++) {
+            if (g[k1] < 0) continue;
+            for (size_t j = 0; j < sizeof(second) / sizeof(second[0]); j++) for (int k2 = 0; k2 < 5; k2++) {
+                uint64_t base = 90000;
+                a->current_state = (uint8_t)s0; a->last_ts = base;
+                vp_now_ms = (base + (uint64_t)g[k1]) * 1000 + 3;
+                switch_state_mapping(a, in1, "h1");
+                int s1 = a->current_state;
+                long t1 = a->states_table[s1].timeout;
+                long g2v[5] = {0, t1 - 1, t1, t1 + 1, 10 * t1};
+                if (s1 == Q) { g2v[1] = 1; g2v[2] = 5; g2v[3] = 31; g2v[4] = 300; }
+                if (g2v[k2] < 0) continue;
+                int in2 = second[j];
+                vp_now_ms = (base + (uint64_t)g[k1] + (uint64_t)g2v[k2]) * 1000 + 3;
+                switch_state_mapping(a, in2, "h2");
+                int s2 = a->current_state;
+                cases++;
+                int timed_out = s1 != Q && t1 > 0 && g2v[k2] > t1;
+                int ok = timed_out ? (s2 == Q || (in2 == 0 && s2 == C)) : (s2 == c14_tab(Q, C, E, done, s1, in2));
+                if (!ok) {
+                    char key[128];
+                    snprintf(key, sizeof(key), "C14:history2:%s", timed_out ? "timeout-not-honoured" : "wrong-transition-after-earlier-input");
+                    viol(key, "start state %d, input %d after %lds, then input %d after another %lds (timeout %lds): state %d -> %d -> %d",
+                         s0, in1, g[k1], in2, g2v[k2], t1, s0, s1, s2);
+                } else if (s2 != s1) nontriv++;
+            }
+        }
+    }
+    stat_ull("cases", cases);
+    stat_ull("distinct_nontrivial", nontriv);
+    stat_ull("violations", n_viol);
+    printf("SAMPLE mapping two-step histories: 3 states x (input -128..255, gap) x (20 representative inputs, gap)\n");
+    return 0;
+}
+
 int main(int argc, char **argv) {
     if (argc < 2) { fprintf(stderr, "usage: vh_sweep <c05|c08|c11|c13|c13v|c14|c15> args...\n"); return 3; }
     vp_opt_sleep = 0;
@@ -630,6 +764,8 @@ int main(int argc, char **argv) {
     else if (!strcmp(argv[1], "c13v")) rc = sweep_c13v(argc - 2, argv + 2);
     else if (!strcmp(argv[1], "c14")) rc = sweep_c14(argc - 2, argv + 2);
     else if (!strcmp(argv[1], "c15")) rc = sweep_c15(argc - 2, argv + 2);
+    else if (!strcmp(argv[1], "c15h")) rc = sweep_c15h(argc - 2, argv + 2);
+    else if (!strcmp(argv[1], "c14h")) rc = sweep_c14h(argc - 2, argv + 2);
     viol_summary();
     fflush(stdout);
     return rc;
